@@ -139,7 +139,13 @@ func judge(h *history, out *sim.Outcome) *simrt.Violation {
 	altWallet := map[string]bool{}
 	for _, s := range pl.Specs {
 		if i := strings.Index(s, "/"); i >= 0 && strings.Contains(s[i:], "|") {
+			// classification only: the dirk manager keeps its expressions per wallet, the wallet manager in one list
 			altWallet[s[:i]] = true
+			if pl.Scenario == "wallet" {
+				for _, w := range pl.Wallets {
+					altWallet[w] = true
+				}
+			}
 		}
 		if _, err := regexp.Compile(s); err != nil {
 			out.Probes["spec-invalid-regex"]++
@@ -272,7 +278,7 @@ func judge(h *history, out *sim.Outcome) *simrt.Violation {
 		if o := opByIdx[c.Op]; o != nil && o.Kind != "vrefresh" {
 			if st := aOfOp[c.Op]; st != nil {
 				for x, a := range pl.Accts {
-					if st.known[x] == yes && !c.Requested[a.Key] {
+					if st.known[x] == yes && !c.Requested[x] {
 						return Viol("C13/validator-refresh-misses-known-account", "op %d: validators request lacks the key of known account %q (asked for %d keys of accounts, %d other keys)", c.Op, a.full(), len(c.Requested), c.ReqOther)
 					}
 				}
@@ -368,7 +374,7 @@ func judge(h *history, out *sim.Outcome) *simrt.Violation {
 			}
 			s += " records:"
 			for i := vlo; i <= vhi; i++ {
-				if e, ok := V[i].recs[a.Key]; ok {
+				if e, ok := V[i].recs[x]; ok {
 					s += fmt.Sprintf(" {idx %d act %d exit %d wd %d slashed %v effbal %d sure %v}", e.rec.Index, e.rec.Act, e.rec.Exit, e.rec.Wd, e.rec.Slashed, e.rec.EffBal, e.sure)
 				} else {
 					s += " none"
